@@ -5,7 +5,7 @@
 From Coq Require Import ZArith List.
 From NTT Require Import Functors Algebra Inverse NTTInst NTTClosed NTTTables Shards Permut Tables FlatTable Fused GenEq.
 From NTT.gen Require Gen GenLoop.
-From NTT Require Structural GenLoopEq ScalarOps GenPrepEq InitSpec GenInitEq PrepSpec PermSem PermSrc InvNttSrc.
+From NTT Require Structural GenLoopEq ScalarOps GenPrepEq InitSpec GenInitEq PrepSpec PermSem PermSrc InvNttSrc Frame InvNttAll.
 From NTT.gen Require GenPerm.
 From NTT.gen Require Import Params.
 Local Open Scope Z_scope.
@@ -209,25 +209,28 @@ Theorem C02_source_permut : forall k0 fuel (x y : list Z), let n := (2 ^ S k0)%n
   GenPerm.gen_permut fuel (Z.of_nat n) y 0 x 0 = Some (BR k0 x ++ skipn n y).
 Proof. exact PermSrc.permut_ok. Qed.
 Print Assumptions C02_source_permut.
-(* core::inv_ntt OF THE SOURCE (the nine translations gen_inv_ntt_<build>_uN: copy into the local array y[degree+1], core::ntt on it, copy
-   back) has the shape below by reflexivity, and therefore returns BR (F (BR x)) where F is the action of the translated core::ntt on the first
-   `degree` words of the scratch array.  PARTIAL: the scratch array has degree+1 words while C05_source_loops_all_builds is stated for an array
-   of exactly `degree` words; that the translated core::ntt leaves the extra word alone (hypothesis NTTpad) is not derived. *)
-Theorem C02_source_inv_ntt_partial : forall (ntt : Z -> list Z -> Z -> list Z -> Z -> list Z -> Z -> Z -> option (list Z * Z * Z * Z * bool))
-  (inv : nat -> Z -> list Z -> Z -> list Z -> Z -> list Z -> Z -> Z -> Z -> list Z -> option (list Z * list Z * Z * Z * bool)), (forall fuel degree x x_o w wo w' wo' invK p y, inv fuel degree x x_o w wo w' wo' invK p y =
-    (if (degree =? 1) then Some ((x, y, wo, wo'), true) else (CxxSem.bind (GenPerm.gen_permut fuel degree y 0 x x_o) (fun y => (CxxSem.bind (ntt degree y 0 w wo w' wo' p) (fun '(y, _, _, _, ret_) =>
-      (CxxSem.bind (GenPerm.gen_permut fuel degree x x_o y 0) (fun x => Some ((x, y, wo, wo'), true))))))))) ->
-  forall k0 fuel W W' p invK F, let n := (2 ^ S k0)%nat in (S k0 <= 30)%nat -> (S k0 < fuel)%nat -> (forall v, length v = n -> length (F v) = n) ->
-  (forall v pad, length v = n -> length pad = 1%nat -> exists a b c, ntt (Z.of_nat n) (v ++ pad) 0 W 0 W' 0 p = Some ((F v ++ pad, a, b, c), true)) ->
-  forall x y0, length x = n -> length y0 = S n ->
-  inv fuel (Z.of_nat n) x 0 W 0 W' 0 invK p y0 = Some ((BR k0 (F (BR k0 x)), F (BR k0 x) ++ skipn n y0, 0, 0), true).
-Proof. exact InvNttSrc.inv_ntt_ok. Qed.
-Print Assumptions C02_source_inv_ntt_partial.
-Theorem C02_source_inv_ntt_shapes :
-  (forall fuel degree x x_o w wo w' wo' invK p y, GenLoop.gen_inv_ntt_serial_u32 fuel degree x x_o w wo w' wo' invK p y = (if (degree =? 1) then Some ((x, y, wo, wo'), true) else (CxxSem.bind (GenPerm.gen_permut fuel degree y 0 x x_o) (fun y => (CxxSem.bind (GenLoop.gen_ntt_serial_u32 degree y 0 w wo w' wo' p) (fun '(y, _, _, _, ret_) => (CxxSem.bind (GenPerm.gen_permut fuel degree x x_o y 0) (fun x => Some ((x, y, wo, wo'), true))))))))) /\
-  (forall fuel degree x x_o w wo w' wo' invK p y, GenLoop.gen_inv_ntt_sse_u32 fuel degree x x_o w wo w' wo' invK p y = (if (degree =? 1) then Some ((x, y, wo, wo'), true) else (CxxSem.bind (GenPerm.gen_permut fuel degree y 0 x x_o) (fun y => (CxxSem.bind (GenLoop.gen_ntt_sse_u32 degree y 0 w wo w' wo' p) (fun '(y, _, _, _, ret_) => (CxxSem.bind (GenPerm.gen_permut fuel degree x x_o y 0) (fun x => Some ((x, y, wo, wo'), true))))))))) /\
-  (forall fuel degree x x_o w wo w' wo' invK p y, GenLoop.gen_inv_ntt_avx2_u32 fuel degree x x_o w wo w' wo' invK p y = (if (degree =? 1) then Some ((x, y, wo, wo'), true) else (CxxSem.bind (GenPerm.gen_permut fuel degree y 0 x x_o) (fun y => (CxxSem.bind (GenLoop.gen_ntt_avx2_u32 degree y 0 w wo w' wo' p) (fun '(y, _, _, _, ret_) => (CxxSem.bind (GenPerm.gen_permut fuel degree x x_o y 0) (fun x => Some ((x, y, wo, wo'), true))))))))) /\
-  (forall fuel degree x x_o w wo w' wo' invK p y, GenLoop.gen_inv_ntt_serial_u16 fuel degree x x_o w wo w' wo' invK p y = (if (degree =? 1) then Some ((x, y, wo, wo'), true) else (CxxSem.bind (GenPerm.gen_permut fuel degree y 0 x x_o) (fun y => (CxxSem.bind (GenLoop.gen_ntt_serial_u16 degree y 0 w wo w' wo' p) (fun '(y, _, _, _, ret_) => (CxxSem.bind (GenPerm.gen_permut fuel degree x x_o y 0) (fun x => Some ((x, y, wo, wo'), true))))))))) /\
-  (forall fuel degree x x_o w wo w' wo' invK p y, GenLoop.gen_inv_ntt_serial_u64 fuel degree x x_o w wo w' wo' invK p y = (if (degree =? 1) then Some ((x, y, wo, wo'), true) else (CxxSem.bind (GenPerm.gen_permut fuel degree y 0 x x_o) (fun y => (CxxSem.bind (GenLoop.gen_ntt_serial_u64 degree y 0 w wo w' wo' p) (fun '(y, _, _, _, ret_) => (CxxSem.bind (GenPerm.gen_permut fuel degree x x_o y 0) (fun x => Some ((x, y, wo, wo'), true))))))))).
-Proof. exact (conj InvNttSrc.inv_shape_serial_u32 (conj InvNttSrc.inv_shape_sse_u32 (conj InvNttSrc.inv_shape_avx2_u32 (conj InvNttSrc.inv_shape_serial_u16 InvNttSrc.inv_shape_serial_u64)))). Qed.
-Print Assumptions C02_source_inv_ntt_shapes.
+(* core::inv_ntt OF THE SOURCE, every build and limb type (the nine translations gen_inv_ntt_<build>_uN: bit-reversal copy of x into the local
+   array y[degree+1], core::ntt on it, bit-reversal copy back): for every degree 2^k, k = 3..30, the caller's array becomes
+   BR (ntt_core (BR x)) -- Structural.ntt_core being what C05_source_loops_all_builds shows the translated core::ntt computes (equal to the
+   model's ntt_list, C02_structure_inv_open), so this is the inner part of the model's inverse transform (Inverse.inv, NTTInst) -- every
+   access in bounds, the scratch array's extra word untouched (Frame.v: a successful run of the translated core::ntt on x succeeds on
+   x ++ pad and leaves pad alone), both table pointers as they were. *)
+Theorem C02_source_inv_ntt : forall k0 p om padW padW' fuel invK, (3 <= S k0 <= 30)%nat -> 1 < p -> List.Forall (fun v => 0 <= v < p) padW -> (S k0 < fuel)%nat ->
+  let k := S k0 in let n := (2 ^ k)%nat in
+  let W := (FlatTable.flat p k om ++ padW)%list in let W' := fun w => (List.map (fun v => (v * 2 ^ w) / p) (FlatTable.flat p k om) ++ padW')%list in
+  let tws := fun lvl => List.nth lvl (Tables.prep p k om) nil in
+  let out w x y0 := Some ((BR k0 (Structural.ntt_core w p k tws (BR k0 x)), (Structural.ntt_core w p k tws (BR k0 x) ++ List.skipn n y0)%list, 0, 0), true) in
+  (p < 2 ^ 14 -> List.Forall (fun v => 0 <= v < 2 ^ 16) padW' -> forall x y0, length x = n -> List.Forall (fun v => 0 <= v < 2 ^ 16) x -> length y0 = S n ->
+     GenLoop.gen_inv_ntt_serial_u16 fuel (Z.of_nat n) x 0 W 0 (W' 16) 0 invK p y0 = out 16 x y0 /\
+     GenLoop.gen_inv_ntt_sse_u16 fuel (Z.of_nat n) x 0 W 0 (W' 16) 0 invK p y0 = out 16 x y0 /\
+     GenLoop.gen_inv_ntt_avx2_u16 fuel (Z.of_nat n) x 0 W 0 (W' 16) 0 invK p y0 = out 16 x y0) /\
+  (4 * p <= 2 ^ 32 -> List.Forall (fun v => 0 <= v < 2 ^ 32) padW' -> forall x y0, length x = n -> List.Forall (fun v => 0 <= v < 2 ^ 32) x -> length y0 = S n ->
+     GenLoop.gen_inv_ntt_serial_u32 fuel (Z.of_nat n) x 0 W 0 (W' 32) 0 invK p y0 = out 32 x y0 /\
+     GenLoop.gen_inv_ntt_sse_u32 fuel (Z.of_nat n) x 0 W 0 (W' 32) 0 invK p y0 = out 32 x y0 /\
+     GenLoop.gen_inv_ntt_avx2_u32 fuel (Z.of_nat n) x 0 W 0 (W' 32) 0 invK p y0 = out 32 x y0) /\
+  (4 * p <= 2 ^ 64 -> List.Forall (fun v => 0 <= v < 2 ^ 64) padW' -> forall x y0, length x = n -> List.Forall (fun v => 0 <= v < 2 ^ 64) x -> length y0 = S n ->
+     GenLoop.gen_inv_ntt_serial_u64 fuel (Z.of_nat n) x 0 W 0 (W' 64) 0 invK p y0 = out 64 x y0 /\
+     GenLoop.gen_inv_ntt_sse_u64 fuel (Z.of_nat n) x 0 W 0 (W' 64) 0 invK p y0 = out 64 x y0 /\
+     GenLoop.gen_inv_ntt_avx2_u64 fuel (Z.of_nat n) x 0 W 0 (W' 64) 0 invK p y0 = out 64 x y0).
+Proof. exact InvNttAll.source_inv_ntt_all_builds. Qed.
+Print Assumptions C02_source_inv_ntt.
